@@ -372,5 +372,9 @@ func NewCentralSystem(endpoint *ocppj.Server, server ws.Server) CentralSystem {
 	cs.server.SetCanceledRequestHandler(func(clientID string, requestID string, request ocpp.Request, err *ocpp.Error) {
 		cs.handleCanceledRequest(clientID, request, err)
 	})
+	// Pending callbacks of a disconnected client are canceled even if no disconnection handler is set by the application
+	cs.server.SetDisconnectedClientHandler(func(chargePoint ws.Channel) {
+		cs.cancelPendingCallbacks(chargePoint.ID())
+	})
 	return &cs
 }
